@@ -84,6 +84,7 @@ class ProbeState:
 
     def __init__(self):
         self.frozen = {}          # key -> (id, digest)
+        self.unfrozen_by_user = set()
         self.depth = 0
         self.stack = []
         self.deepest = None
@@ -116,7 +117,7 @@ class CoreProbe:
         v = st.violations
         data, la = rel.data, rel.last_accessed
         for k, (oid, dg) in st.frozen.items():
-            if rel.var_importance.get(k, 1.0) != 0:
+            if rel.var_importance.get(k, 1.0) != 0 and k in st.unfrozen_by_user:
                 continue                      # the user un-froze it
             if k not in data:
                 v.append(("I1 frozen key evicted", {"key": k, "where": where}))
@@ -226,6 +227,10 @@ class CoreProbe:
             probe._orig['freeze'](rel)
             for k, v in rel.data.items():
                 st.frozen[k] = (id(v), digest(v) if isinstance(v, np.ndarray) else None)
+                if rel.var_importance.get(k, 1.0) != 0:
+                    st.violations.append(("I1 freeze_data left an entry evictable",
+                                          {"key": k, "importance": rel.var_importance.get(k)}))
+            st.frozen_at_freeze = set(rel.data)
 
         C.__getitem__ = getitem
         C.cleanup_cache = cleanup
